@@ -133,14 +133,25 @@ def planners_twice(ck, tier, binary):
     jobs = []
     nper = 2 if tier == "quick" else 10
     for p in planners:
-        for _ in range(nper):
+        for i in range(nper):
             W, H, obst, s, g = rng.choice(PROBLEMS)
             slow = p["flags"] & F_SLOW
+            # every planner also runs on the lattice space (LAT: samplers hand out quarter-cell lattice points only):
+            # exact distance ties and repeated states are the rule there, so every tie-break in nearest-neighbour
+            # structures, queues and sorts is exercised - a source of randomness outside ompl::RNG (or an order that
+            # depends on addresses) only shows where something ties
+            lattice = i % 2 == 1
             jobs.append({"planner": p["name"], "W": W, "H": H, "obst": obst, "start": s, "goal": g,
-                         "seed": rng.randrange(1, 1 << 30), "budget": rng.choice([3000, 6000]) if slow else rng.choice([5, 60, 300, 900]),
+                         "seed": rng.randrange(1, 1 << 30),
+                         "budget": rng.choice([3000, 6000]) if slow else rng.choice([300, 900, 2500] if lattice else [5, 60, 300, 900]),
                          "thr": rng.choice([0.0, 0.4]), "solves": rng.choice([1, 1, 2]),
-                         "space": rng.choice(["R2", "R2", "SE2", "R3"]), "objective": rng.choice(["", "length"]),
+                         "space": "LAT" if lattice else rng.choice(["R2", "R2", "SE2", "R3"]),
+                         "objective": rng.choice(["", "length"]),
                          "params": c01.pick_params(p, rng, prob=0.5)})
+            if lattice and any(q["name"] == "range" for q in p.get("params", [])) and rng.random() < 0.7:
+                # short motions: the tree grows to hundreds of nodes before it reaches the goal (GNAT nodes split
+                # beyond 50 elements; only then the child visiting order matters)
+                jobs[-1]["params"]["range"] = rng.choice(["0.2", "0.25", "0.5"])
 
     def one(args):
         j, rep = args
